@@ -258,8 +258,11 @@ def _compile(
     context: Context,
     derived_resources: Iterable[DerivedResources] = (),
 ) -> CompiledRoutine[T]:
+    local_variables = _compile_local_variables(routine.local_variables, inputs, backend)
+
     try:
-        new_constraints = evaluate_constraints(routine.constraints, inputs, backend)
+        # Constraints may refer to local variables (e.g. port sizes defined through them)
+        new_constraints = evaluate_constraints(routine.constraints, {**local_variables, **inputs}, backend)
     except ConstraintValidationError as e:
         raise BartiqCompilationError(
             f"The following constraint was violated when compiling {context.path}: "
@@ -268,8 +271,6 @@ def _compile(
         )
 
     connections_map = _expand_connections(routine.connections)
-
-    local_variables = _compile_local_variables(routine.local_variables, inputs, backend)
 
     # Parameter map holds all of the assignments as nested dictionary.
     # The first level of nesting is the child name (or None for current routine assignments).
